@@ -14,7 +14,7 @@ AnsiString.WITH_ASSERTIONS = True            # the library's own consistency sel
 STRS = ('', 'a', 'ba', ' ', '\t', 'ab')
 WIDTHS = (0, 4, 7, 1, -3, 10000)
 SPECS = (None, '', '>5', '^6:red', ' -<7:bold', 'x5', '+5', ':underline', '<', '0>4', ':<3', '^', '5', '<5:nosuch', ':rgb(1,2,3)', '-^9:[1m')
-SETTINGS = ('red', ['bold', 'red'], '[38;5;9', '', [], AnsiFormat.BG_BLUE, 'rgb(300,0,0)', '[1m', 22)
+SETTINGS = ('red', ['bold', 'red'], 'nosuchname', '[38;5;9', '', [], AnsiFormat.BG_BLUE, 'rgb(300,0,0)', '[1m', 22, ['red', 'rgb(1,2)'], -1)
 
 
 def recv(k):
@@ -61,6 +61,11 @@ def recv(k):
 
 
 N_RECV = 11
+
+
+def snap9(s):
+    """text, per-character settings, optimised and non-optimised rendering."""
+    return snapshot(s) + (s.to_str(None, False, True, False),)
 
 
 def battery(x):
@@ -204,7 +209,8 @@ def h_op(op: int, r: int, xi: int, yi: int, i: Optional[int], j: Optional[int], 
         except Exception:
             cover('first-step-error')
             return None
-    snap = snapshot(s)
+    snap = snap9(s)
+    before = s.copy()
     try:
         res = f(s, x, y, i, j, w, qq)
     except Exception as e:
@@ -219,8 +225,8 @@ def h_op(op: int, r: int, xi: int, yi: int, i: Optional[int], j: Optional[int], 
                 ok = type(e2) is type(e)
         if not ok:
             return ('undocumented-error-type', name, type(e).__name__, str(e)[:100])
-        if snapshot(s) != snap:
-            return ('changed-after-error', name, type(e).__name__, snap, snapshot(s))
+        if snap9(s) != snap or not (s == before):
+            return ('changed-after-error', name, type(e).__name__, snap, snap9(s))
         cover('error')
         try:
             battery(s)
@@ -267,15 +273,15 @@ def obligations(tier):
     obs.append(Ob('receivers', h_receivers, {}, need=('receiver',), budget=300, bounds='%d receivers' % N_RECV, kinds=KINDS))
     # per operation group: which palette arguments it consumes (others are fixed), flag width (w used as flags only), settings/flag range
     dom = {
-        'apply_formatting': dict(ij=1, w=1, q=8), 'remove_formatting': dict(ij=1, q=8), 'clip': dict(ij=1, w=1), 'getitem-slice': dict(ij=1),
-        'getitem-int': dict(ij=1), 'find_settings': dict(ij=1, w=1, q=8), 'settings_at': dict(ij=1),
+        'apply_formatting': dict(ij=1, w=1, q=11), 'remove_formatting': dict(ij=1, q=11), 'clip': dict(ij=1, w=1), 'getitem-slice': dict(ij=1),
+        'getitem-int': dict(ij=1), 'find_settings': dict(ij=1, w=1, q=11), 'settings_at': dict(ij=1),
         'center': dict(x=1, w=5, q=3), 'ljust': dict(x=1, w=5, q=3), 'rjust': dict(x=1, w=5, q=3), 'zfill': dict(w=5, q=1),
         'strip': dict(x=1, y=1, q=1), 'removeprefix': dict(x=1, y=1, q=1), 'replace': dict(x=1, y=1, ij=1, w=1, q=2),
         'split': dict(x=1, y=1, ij=1), 'splitlines': dict(w=1), 'partition': dict(x=1, y=1), 'expandtabs': dict(w=3, q=1),
         'count-find': dict(x=1, y=1, ij=1), 'index': dict(x=1, ij=1), 'rindex': dict(x=1, ij=1), 'format': dict(q=15), 'to_str': dict(w=5, q=15),
-        'assign_str': dict(x=1, y=1), 'set_ansi_str': dict(x=1, y=1), 'format_matching': dict(x=1, ij=1, w=3, q=8),
-        'unformat_matching': dict(x=1, ij=1, w=3, q=8), 'simplify': dict(q=1), 'add': dict(x=1, y=1, q=8), 'iadd': dict(x=1, q=1), 'case': dict(q=1),
-        'misc': dict(q=8), 'ansistr': dict(x=1, ij=1, w=2, q=2), 'parse_graphic_sequence': dict(x=1, y=1, ij=1, w=1), 'helpers': dict(x=1, y=1, ij=1),
+        'assign_str': dict(x=1, y=1), 'set_ansi_str': dict(x=1, y=1), 'format_matching': dict(x=1, ij=1, w=3, q=11),
+        'unformat_matching': dict(x=1, ij=1, w=3, q=11), 'simplify': dict(q=1), 'add': dict(x=1, y=1, q=11), 'iadd': dict(x=1, q=1), 'case': dict(q=1),
+        'misc': dict(q=11), 'ansistr': dict(x=1, ij=1, w=2, q=2), 'parse_graphic_sequence': dict(x=1, y=1, ij=1, w=1), 'helpers': dict(x=1, y=1, ij=1),
     }
     for op, (name, f, g) in enumerate(OPS):
         d = dom[name]
@@ -297,7 +303,7 @@ def obligations(tier):
                       qmax=min(fixed['qmax'], 3))
             if name == 'ansistr':
                 for xi in range(3):
-                    obs.append(Ob('op/%s/x%d' % (name, xi), h_op, dict(fq, xi=xi), need=('success',), budget=900, per_path=30,
+                    obs.append(Ob('op/%s/x%d' % (name, xi), h_op, dict(fq, xi=xi), need=('success',) if len(STRS[xi]) <= 1 else ('error',), budget=900, per_path=30,
                                   bounds='operation group %s on 5 receivers, 5 integers' % name, kinds=KINDS))
                 continue
             obs.append(Ob('op/%s' % name, h_op, fq, need=('success',), budget=900, per_path=30,
